@@ -14,8 +14,9 @@ REQUIRED = ["fit.optimality", "fit.quantile_fraction", "score.exact", "score.mon
 RULE = ("cases drawn from (quantile x n x p x noise kind x weights x positive x fit_intercept x container); "
         "non-trivial = q != 0.5, n >= 5(p+1) and LP optimum > 0; distinct = distinct (config, data fingerprint)")
 ASSUMPTIONS = [
-    "IRLS is run with max_iter=300 (default 10 stops ~8% above the optimum by design); tolerance on the "
-    "optimality gap: relative 1e-3 + absolute 1e-9, recalibrated and reported on every run",
+    "IRLS is run with max_iter=300 (default 10 stops ~8% above the optimum by design) and re-run with max_iter=6000 "
+    "when the gap exceeds 1e-4; tolerance on the optimality gap of the converged run: relative 1e-3 + absolute "
+    "1e-9, the worst observed gap is reported on every run",
     "full-rank designs with continuous noise, data scale O(1) (delta=1e-4 is an absolute smoothing constant)",
     "with sample weights 'mean' is ambiguous: score may normalise by n or by sum(w)",
 ]
@@ -130,6 +131,15 @@ def run_case(case, ctx):
     f = m.predict(X)
     lstar = lp_optimum(X, y, q, w, fit_intercept, positive)
     lfit = pinball(y, f, q, w)
+    if lstar is not None and lfit > lstar * (1 + 1e-4) + 1e-9:
+        # IRLS converges slowly at extreme quantiles on small samples (gap 1.2e-3 after 300 iterations, 7e-6 after
+        # 2 326 on n=35, q=0.05): "up to the IRLS tolerance" is judged on a converged run
+        ctx.hit("fit.slow_convergence_refit")
+        numpy.random.seed(sub % (2 ** 31))
+        m = QuantileLinearRegression(quantile=q, max_iter=6000, positive=positive, fit_intercept=fit_intercept)
+        m.fit(Xin, y) if w is None else m.fit(Xin, y, sample_weight=w)
+        f = m.predict(X)
+        lfit = pinball(y, f, q, w)
     if lstar is None:
         ctx.excluded("lp-failed")
     else:
